@@ -176,7 +176,11 @@ func runPath(w *World, s *Solver, cfg *RunConfig, fn *ssa.Function, prefix []Dec
 				m.res.Msg = "crash outside CrashScope"
 			default:
 				m.res.Status = "internal"
-				m.res.Msg = fmt.Sprintf("interpreter error: %v\n%s", r, trimStack(debug.Stack()))
+				at := ""
+				if m.lastInstr != nil {
+					at = fmt.Sprintf(" at [%s] in %s (%s) stack: %s", m.lastInstr, m.lastFn, m.prog.Fset.Position(m.lastInstr.Pos()), m.targetStack())
+				}
+				m.res.Msg = fmt.Sprintf("interpreter error: %v%s\n%s", r, at, trimStack(debug.Stack()))
 			}
 		}()
 		m.callSSA(nil, fn, nil, nil)
@@ -469,4 +473,15 @@ func firstLine(s string) string {
 		s = s[:160]
 	}
 	return s
+}
+
+func (m *Machine) targetStack() string {
+	var sb strings.Builder
+	n := 0
+	for fr := m.lastFrame; fr != nil && n < 14; fr = fr.caller {
+		sb.WriteString(fr.fn.String())
+		sb.WriteString(" < ")
+		n++
+	}
+	return sb.String()
 }
